@@ -84,6 +84,11 @@ def inputs(tier):
     for d in (2.05, 2.3, 2.49):
         out.append(dict(src='ss-scan', d=d))
     # parameter files that change the ranges (incl. desolvation range shorter than the burial range)
+    for name in ('coupled-centre', 'coupled-shared'):     # covalently coupled groups get a common centre / share determinants
+        out.append(dict(src='corpus', d=corpus.window_desc('3SGB', 'I', 0, 12), cfg=name))
+        out.append(dict(src='corpus', d=corpus.window_desc('1HPX', 'A', 66, 8), cfg=name))
+        out.append(dict(src='corpus', d=corpus.window_desc('1FTJ', 'A', 55, 10), cfg=name))
+        out.append(dict(src='corpus', d=corpus.cutout_desc('4DFR', 'A', 26, 9.0), cfg=name))
     for name in CFG_EDITS:
         out.append(dict(src='corpus', d=corpus.pair_desc('ASP', 'LYS', 2.8, 'deep'), cfg=name))
         out.append(dict(src='corpus', d=corpus.pair_desc('HIS', 'GLU', 3.0, 'deep'), cfg=name))
@@ -108,7 +113,7 @@ def plan(tier, seed):
     return dict(shards=shards, exhaustive=True,
                 rule=('inputs: 5 flattened planar fragments, docked pairs (5x8 amino-acid kinds; 4x5 with ligands/ions), clusters, 8 A '
                       'cut-outs, 5-residue windows; motions: 24 rotations x translations {generic, x~9900}%s; for amino-acid inputs each '
-                      'motion is run twice (hydrogens built un-rounded; own hydrogens fed back with --keep-protons); translations that push the '
+                      'motion is run twice (hydrogens built un-rounded; own hydrogens fed back with --keep-protons) and once more with --protonate-all; translations that push the '
                       'structure against the faces of the coordinate field, incl. (small inputs) every pose in which a constructed hydrogen is '
                       'the outermost atom. non-trivial = distinct '
                       '(input, motion) other than the identity whose record has a determinant or a non-zero desolvation term') % (
@@ -209,7 +214,8 @@ def heavy_view(mol):
     return bonds, groups, desolv, bridges
 
 
-CFG_EDITS = {'short-desolv': {'desolv_cutoff': '10.0', 'buried_cutoff': '15.0'},
+CFG_EDITS = {'coupled-centre': {'common_charge_centre': '1'}, 'coupled-shared': {'common_charge_centre': '1', 'shared_determinants': '1'},
+             'short-desolv': {'desolv_cutoff': '10.0', 'buried_cutoff': '15.0'},
              'long-ranges': {'desolv_cutoff': '30.0', 'buried_cutoff': '25.0', 'coulomb_cutoff2': '14.0', 'Nmin': '150', 'Nmax': '400'}}
 
 
@@ -376,6 +382,13 @@ def run_case(case, ctx, acc):
                 ms = pk.run(gen.to_text(shared), ('--keep-protons',) + base_opts)
                 rs0, bs0 = pk.record(ms), all_bonds(ms)
         nt = any(any(g['dets'][t] for t in g['dets']) or g['energy_volume'] for g in r0['confs']['AVR']['groups'])
+        # --protonate-all builds rotamer hydrogens (hydroxyl, thiol, amine) whose direction follows the frame, but it is promised not
+        # to change any pKa (C07): for amino-acid inputs without rotamers in the default mode its results are pose independent too
+        rpa0 = None
+        if amino and not rotamer:
+            pk.seam_unrounded_hydrogens(True)
+            rpa0 = pk.record(pk.run(text0, ('--protonate-all',) + base_opts))
+            seam.calls = 0
         trs = translations(s, ctx.tier, ctx.seed)
         maxdev = 0.0
         for ri, rot in enumerate(gen.ROTATIONS):
@@ -420,6 +433,14 @@ def run_case(case, ctx, acc):
                     d = cmp.diff_records(r0, r1, tol=1e-9)
                     if d:
                         v.append(('pka-depends-on-pose/unrounded-hydrogens/%s' % d[0][0], str(d[0])[:300]))
+                    if rpa0 is not None and (tname == 'generic' or ctx.tier == 'thorough'):
+                        pk.seam_unrounded_hydrogens(True)
+                        rpa1 = pk.record(pk.run(text1, ('--protonate-all',) + base_opts))
+                        seam.calls = 0
+                        acc.n += 1
+                        d = cmp.diff_records(rpa0, rpa1, tol=1e-9)
+                        if d:
+                            v.append(('pka-depends-on-pose/protonate-all/%s' % d[0][0], str(d[0])[:300]))
                     infield = lambda st: all(-999999 <= e[0] and e[1] <= 9999999 for e in st.extent())   # noqa: E731
                     fm = None if fed is None else gen.S([i.clone() if not isinstance(i, str) else i for i in fed]).rotate(rot).translate(t)
                     if fm is not None and not infield(fm):
